@@ -173,3 +173,15 @@ if [ ! -f ncok.cert.pem ]; then
   done
   openssl x509 -in ncsfx.cert.pem -noout -ext nameConstraints
 fi
+# wave 10: a self-signed (pinned) server pair for server.sim, not issued by any CA
+if [ ! -f srvself-sign.cert.pem ]; then
+  ss() { # name CN ku
+    openssl genpkey -algorithm SM2 -out "$1.key.pem" 2>/dev/null
+    { echo "[req]"; echo "distinguished_name=dn"; echo "x509_extensions=v3"; echo "[dn]"; echo "[v3]"; echo "basicConstraints=critical,CA:FALSE"; echo "keyUsage=critical,$3"; echo "extendedKeyUsage=serverAuth"; echo "subjectKeyIdentifier=hash"; echo "subjectAltName=DNS:server.sim"; } > "$1.cnf"
+    openssl req -config "$1.cnf" -x509 -new -key "$1.key.pem" -subj "/C=CN/O=verifsim/CN=$2" -out "$1.cert.pem" -not_before $VB -not_after $VA -sm3 $D -set_serial $RANDOM$RANDOM
+    rm -f "$1.cnf"
+  }
+  ss srvself-sign "pinned server.sim sign" digitalSignature
+  ss srvself-enc "pinned server.sim enc" keyEncipherment,dataEncipherment,keyAgreement
+  openssl x509 -in srvself-sign.cert.pem -noout -subject -issuer -dates
+fi
